@@ -152,6 +152,6 @@ pub fn def() -> PropertyDef {
             .into(),
         assumptions: vec![],
         exhaustive: false,
-        subs: vec![rec_sub::<F>((3000, 100_000)), rec_sub::<R>((300, 6000))],
+        subs: vec![rec_sub::<F>((12_000, 150_000)), rec_sub::<R>((1000, 8000))],
     }
 }
